@@ -858,6 +858,14 @@ pub fn execute(scn: &Scenario, ctx: &mut Ctx) {
     if dribbled {
         ctx.fault("seg-dribble");
     }
+    // reach: records whose every cut point 0..=5+len was a delivery event of this run
+    let full_dribble = !segs.is_empty() && segs.iter().all(|&n| n == 1) && segs.len() >= limit;
+    ctx.count("records_delivered", st.emitted);
+    ctx.count("delivery_events", nev);
+    if full_dribble {
+        ctx.count("records_with_every_cut_point_enumerated", st.emitted);
+        ctx.count("cut_points_enumerated", limit as u64 + 1);
+    }
     if nev >= 2 {
         ctx.nontrivial = true;
     }
